@@ -202,8 +202,18 @@ class C11(Oracle):
                              key=f"C11/tariff/{cause}"))
         return out
 
+    TIMED_INPUT_CODE = ("charging_price_update.py", "update_requests_from_file.py", "cancel_requests.py", "iterators.py", "station_ops.py")
+
     def aborted(self, run, k, exc):
-        return [V("C11", "run_stopped", k, f"the run stopped with {type(exc).__name__}: {exc}", key=f"C11/run_stopped/{type(exc).__name__}")]
+        # "never stopping the run" is about the timed inputs: an exception raised while they are being applied.  One that escapes
+        # from somewhere else (a generator, a vehicle update) stops the run too, but is not this property's business: the run
+        # is then counted as aborted like anywhere else.
+        tb = exc.__traceback__
+        while tb is not None:
+            if tb.tb_frame.f_code.co_filename.endswith(self.TIMED_INPUT_CODE):
+                return [V("C11", "run_stopped", k, f"the run stopped with {type(exc).__name__}: {exc}", key=f"C11/run_stopped/{type(exc).__name__}")]
+            tb = tb.tb_next
+        return []
 
     def nontrivial(self, run):
         return self.n_adm > 0 or self.n_price > 0
